@@ -336,7 +336,7 @@ fn infinite_is_err(n: usize, which: u8) {
         0 => assert!(f::proportional_weights(&pop, 1.0, false).is_none(), "proportional_weights: infinite objective gives None"),
         1 => assert!(Selection::<TagP>::select(&RouletteWheel::from_params(1, 1.0), &pop, &mut rng).is_err(), "RouletteWheel: infinite objective values are an error"),
         2 => assert!(Selection::<TagP>::select(&StochasticUniversalSampling::from_params(1, 1.0), &pop, &mut rng).is_err(), "SUS: infinite objective values are an error"),
-        _ => assert!(Selection::<TagP>::select(&DeterministicFitnessProportional::from_params(1, 2), &pop, &mut rng).is_err(), "IWO selection: infinite objective values are an error"),
+        _ => assert!(Selection::<TagP>::select(&DeterministicFitnessProportional::from_params(1, 1), &pop, &mut rng).is_err(), "IWO selection: infinite objective values are an error"),
     }
     assert!(draws() == 0, "no draw before the error");
     std::mem::forget((pop, rng));
